@@ -114,6 +114,6 @@ SUBS = [
 
 MANIFEST = {
     "technique": "property-based round-trip testing: Hypothesis model generator for the FeatureIDE fragment, n write/read cycles, oracle = generating spec (names, tree, abstract flags, one-to-one truth-table equivalence of constraints) plus byte/observation idempotence",
-    "level_text": "Generated FeatureIDE-fragment models (XML-special names, zero constraints, literal constraints included) are written and read 3-4 times; cycle 1 is compared with the spec, later cycles with the previous one. Sampling only.",
+    "level_text": "Generated FeatureIDE-fragment models (XML-special names, zero constraints, literal constraints included) are written and read 3-4 times; cycle 1 is compared with the spec, later cycles with the previous one. Sampling only. Also: models of 250-500 features with up to 120 constraints, wide groups, names with XML-legal control characters, comment/CDATA/entity look-alikes, and the same-path decoys / relative paths / other file system of C01. A sample of every sub-check additionally runs in a `python -OO` child with the root logger at DEBUG.",
     "level_note": "Trusted: vf/build.py, vf/roundtrip.py, vf/logic.py (bipartite matching under truth-table equivalence), Hypothesis.",
 }
